@@ -1,5 +1,6 @@
 #!/bin/bash
 # Build the framework from files on disk only (offline).
-cd "$(dirname "$0")"
-export PYTHONPATH=/verif:${VERIF_REPO:-/repo}/src PYTHONHASHSEED=0
+D="$(cd "$(dirname "$0")" && pwd)"
+cd "$D"
+export PYTHONPATH=$D:${VERIF_REPO:-/repo}/src PYTHONHASHSEED=0
 exec /venv/bin/python -W ignore -m harness.setup 2> >(grep -v "conda\|WARNING: " >&2)
